@@ -547,7 +547,11 @@ Definition step (st : mstate) (e : tev) : mstate :=
                   if mem c (connsubs s) then add_viol s VConnLeft c 1 else s) (gone st) st in
       set_conns st (connsubs st) (gone st)
   | TMqSub r => set_cache st (r :: remove_rid r (mqsubs st)) (filter (fun f => negb (Nat.eqb (base_of f) r)) (fetched st))
-  | TMqUnsub r => set_cache st (remove_rid r (mqsubs st)) (filter (fun f => negb (Nat.eqb (base_of f) r)) (fetched st))
+  | TMqUnsub r =>
+      (* the cache entry is evicted: nothing of it is cached any more, so a reset that has not been carried out yet
+         has nothing to re-fetch for it *)
+      let st := set_cache st (remove_rid r (mqsubs st)) (filter (fun f => negb (Nat.eqb (base_of f) r)) (fetched st)) in
+      set_reset st (resetting st) (filter (fun f => negb (Nat.eqb (base_of f) r)) (due st)) (task_open st)
   | TMqReq n t r c tok _ =>
       let st := match t, c with
                 | MAccess, Some c' => set_acc st ((n, (c', r)) :: accreq st) (lastacc st)
